@@ -24,6 +24,7 @@ struct Ctx {
   // results
   Mat ref_m, got_m;
   std::vector<double> ref_v, got_v;
+  std::vector<size_t> other_u; int sel_metric = 0;   // the same selection by the other max-min implementation
   std::vector<size_t> ref_u, got_u, got_lab;   // got_lab: labels from a direct call of the labelling kernel on (data, returned centroids), output pre-filled with a sentinel
   Mat ref_c, got_c, lab_c;   // lab_c: the centroids handed to the direct labelling call
   int phase;  // 0 = reference, 1 = multithreaded
@@ -119,6 +120,11 @@ static void call_kernel(void *arg) {
       else if (c.kern == K_MAXDIS) MaxDis(m, (size_t)c.other, metric, sel, nth);
       else MaxDis_Fast(m, (size_t)c.other, metric, sel, nth);
       (mt ? c.got_u : c.ref_u) = from_uivector(sel);
+      if (mt && c.kern != K_MDC && metric != 2) {  // the two max-min implementations share one contract: run the other one (sequentially) on the same input
+        uivector *s2; initUIVector(&s2);
+        if (c.kern == K_MAXDIS) MaxDis_Fast(m, (size_t)c.other, metric, s2, 1); else MaxDis(m, (size_t)c.other, metric, s2, 1);
+        c.other_u = from_uivector(s2); c.sel_metric = metric; DelUIVector(&s2);
+      }
       DelUIVector(&sel); DelMatrix(&m);
       break;
     }
@@ -325,6 +331,18 @@ struct HMt : Harness {
           }
           hash_mat(h, c.got_c);
         } else {
+          if (!o.violation && !c.other_u.empty() && c.other_u != c.got_u) {
+            // first position where MaxDis and MaxDis_Fast disagree: a violation unless the two candidates tie (to 1e-9) in their distance to the common prefix
+            size_t j = 0; while (j < c.got_u.size() && j < c.other_u.size() && c.got_u[j] == c.other_u[j]) j++;
+            bool tie = false;
+            if (j > 0 && j < c.got_u.size() && j < c.other_u.size() && c.got_u[j] < c.A.size() && c.other_u[j] < c.A.size()) {
+              enum cmethod me = c.sel_metric == 0 ? EUCLIDEAN : MANHATTAN; long double da = INFINITY, db = INFINITY;
+              for (size_t q = 0; q < j; q++) { da = fminl(da, ld_dist(c.A[c.got_u[j]], c.A[c.got_u[q]], me)); db = fminl(db, ld_dist(c.A[c.other_u[j]], c.A[c.got_u[q]], me)); }
+              tie = fabsl(da - db) <= 1e-9L * fmaxl(da, db);
+            }
+            if (tie) o.counters["skipped.maxmin_tie"]++;
+            else { char m[260]; snprintf(m, sizeof m, "%s (metric %d, %d threads) and the other max-min implementation select different objects from position %zu on", kern_name[c.kern], c.sel_metric, c.threads, j); o.fail("maxdis-implementations-differ", m); }
+          }
           if (c.got_u.size() != (size_t)c.other) o.fail("selection-count", std::string(kern_name[c.kern]) + ": wrong number of selected objects");
           std::set<size_t> s(c.got_u.begin(), c.got_u.end());
           if (s.size() != c.got_u.size()) o.fail("selection-distinct", std::string(kern_name[c.kern]) + ": duplicate selection");
